@@ -67,9 +67,11 @@ def check(ctx):
                 if not g.dominates(h.id, n.id):
                     continue
                 for cls, how, target, soft in n.data.get('raises', []):
-                    tn = g.n(target)
-                    if how == 'escape' or len(tn.stack) < len(lp.stack) or \
-                            (tn.stack == lp.stack and target < lp.id):
+                    # caught by a handler that was set up outside the loop (or by
+                    # nobody): the retry loop is left
+                    # (handler nodes are created when their try statement is entered:
+                    # an id below the loop head's means "entered before the loop")
+                    if how == 'escape' or target < lp.id:
                         way_out = True
             if ex is not None and ex in g.reachable_from(h.id, blocked=[lp.id] + outside):
                 way_out = True
